@@ -335,11 +335,11 @@ package pointindex
 //@   ensures[C03,C14] result1 == nil ==> result0 != nil && wfIndex(result0)
 //@   ensures[C03,C02] result1 == nil ==> indexInv0(result0)
 //@   ensures[C03,C02] result1 == nil ==> indexGrid(result0)
-//@   ensures[C03,C08] result1 == nil ==> result0.deepestLevel == level && result0.deepestSize == pow2(level) && result0.deepestRes == res
-//@   ensures[C03] result1 == nil ==> result0.intExtent == arr(bbMinX(tileMatrixSet), bbMinY(tileMatrixSet), bbMaxX(tileMatrixSet), bbMaxY(tileMatrixSet))
+//@   ensures[C03,C08,C02,C09,C05,C06] result1 == nil ==> result0.deepestLevel == level && result0.deepestSize == pow2(level) && result0.deepestRes == res
+//@   ensures[C03,C08,C02,C09,C05,C06] result1 == nil ==> result0.intExtent == arr(bbMinX(tileMatrixSet), bbMinY(tileMatrixSet), bbMaxX(tileMatrixSet), bbMaxY(tileMatrixSet))
 //@   ensures result1 == nil ==> !isNil(result0.hitOnce) && !isNil(result0.hitMultiple)
-//@   ensures[C09] result1 == nil ==> gridSpan(result0) == tmsGridSpan(tileMatrixSet, deepestTMID) using post(5)
-//@   ensures[C02] result1 == nil && tmsRound(tileMatrixSet, deepestTMID) ==> roundGrid(result0) using post(6); post(8)
+//@   ensures[C03,C08,C02,C09,C05,C06] result1 == nil ==> gridSpan(result0) == tmsGridSpan(tileMatrixSet, deepestTMID) using post(5)
+//@   ensures[C03,C08,C02,C09,C05,C06] result1 == nil && tmsRound(tileMatrixSet, deepestTMID) ==> roundGrid(result0) using post(6); post(8)
 //@   ensures[C03] result1 == nil ==> result0.z == 0 && result0.intCentroid == arr(result0.intExtent[0] + hfloor(pixSpan(result0, 0)), result0.intExtent[1] + hfloor(pixSpan(result0, 0)))
 
 // DeviationStats: formats a report; what matters to validation is that it does not panic and fails when matrix 0
